@@ -12,6 +12,9 @@ import MpsVerif.Drv.Refcount
 import MpsVerif.Drv.ProxyCall
 import MpsVerif.Drv.Servlet
 import MpsVerif.Drv.IterQueue
+import MpsVerif.Drv.Frame
+import MpsVerif.Drv.Mux
+import MpsVerif.Drv.Pipe
 
 def main (args : List String) : IO UInt32 := do
   match args with
@@ -31,4 +34,7 @@ def main (args : List String) : IO UInt32 := do
   | ["proxycall"] => ProxyCall.Drv.main; return 0
   | ["servlet"] => Servlet.Drv.main; return 0
   | ["iterq"] => IterQueue.Drv.main; return 0
-  | _ => IO.eprintln s!"usage: drv <model>   (models: fifo)"; return 2
+  | ["frame"] => Frame.Drv.main; return 0
+  | ["mux"] => Mux.Drv.main; return 0
+  | ["pipe"] => Pipe.Drv.main; return 0
+  | _ => IO.eprintln s!"usage: drv <model>   (see lean/Main.lean for the list of models)"; return 2
